@@ -297,6 +297,8 @@ FamHost ==
         v \in {"1.1", "1.0"}, f \in {"origin", "absolute"}, h \in PlainHosts}
     \cup {X(c, ua, "1.1", "GET", "origin", h, p, "-", "-", "-", "-", "-", "-", FALSE, "plain") :
         c \in AllConns \ {"P"}, ua \in {"-", "firefox"}, h \in TLSHosts, p \in (IF Quick THEN {"/x"} ELSE {"/x", "/base/rw/x"})}
+    \* a User-Agent longer than any limit the server applies to that header elsewhere (the value is request text: verbatim)
+    \cup {X(c, "long", "1.1", "GET", "origin", DefHost(c), "/x", "-", "-", "-", "-", "-", "-", FALSE, "plain") : c \in {"P", "T13"}}
 \* headers, cookies, credentials
 FamHdr ==
     {X(c, "-", "1.1", "GET", "origin", DefHost(c), p, "-", xi, ck, au, "-", "-", FALSE, "plain") :
